@@ -543,6 +543,9 @@ class FnView:
         # element reads of a growable container: values pushed / inserted / appended to it so far
         if proj and len(visiting) < 40:
             out |= self._container_write_origins(l, proj, taint, visiting, at)
+        # taint mode: `x += y` / `x -= y` on a non-primitive (a call taking `&mut x`): x depends on y
+        if taint and len(visiting) < 12:
+            out |= self._op_assign_origins(l, visiting | {(l, proj, at)}, at)
         # taint mode: writes through references that (by provenance) point into the value being read
         if taint and len(visiting) < 4 and out:
             out |= self._alias_write_origins(l, proj, out, visiting, at)
@@ -555,6 +558,32 @@ class FnView:
 
     _PUSH_RE = re.compile(r"^std::(?:vec::Vec|collections::VecDeque)::(push|push_back|push_front|insert|extend_from_slice|append)$"
                           r"|^<std::vec::Vec<.*> as std::iter::Extend<.*>>::(extend)$")
+
+    _OPASSIGN_RE = re.compile(r"as std::ops::\w+Assign(<.*>)?>::\w+_assign$")
+
+    def _op_assign_origins(self, l, visiting, at):
+        oa = getattr(self, "_oa", None)
+        if oa is None:
+            oa = []
+            for b, t in self.iter_calls():
+                if not self._OPASSIGN_RE.search(mname(t)) or len(t["args"]) != 2 or t["args"][0]["k"] not in ("copy", "move"):
+                    continue
+                r = t["args"][0]["pl"]["l"]
+                tgt = set()
+                for d in self.defs().get(r, []):
+                    if d[0] == "s" and d[3]["rv"]["r"] == "ref":
+                        tgt.add(d[3]["rv"]["pl"]["l"])
+                oa.append((b, t, tgt))
+            self._oa = oa
+        out = set()
+        for b, t, tgt in oa:
+            if l not in tgt:
+                continue
+            n = len(self.blocks[b]["s"])
+            if at is not None and not self.def_reaches(b, n, at):
+                continue
+            out |= self._origins_op(t["args"][1], (), True, visiting, (b, n))
+        return out
 
     def _container_write_origins(self, l, proj, taint, visiting, at):
         """`v.push(x)` / `v.insert(i, x)` / `v.extend(it)` / `v.append(&mut w)` executed before `at` on the Vec local `l`:
@@ -988,10 +1017,43 @@ class Model:
             self.views[path] = v
         return v
 
-    def all_paths(self, crate=None):
+    def inlined_helpers(self):
+        """Workspace functions unknown to the rule tables that are called somewhere: they are analysed as part of every
+        caller (inline.py), so whole-crate scans do not visit them a second time out of context."""
+        r = getattr(self, "_inl_helpers", None)
+        if r is None:
+            from . import inline
+            called = set()
+            for p, f in self.fnsrc.items():
+                for bb in f.get("body", {}).get("blocks", []):
+                    t = bb.get("t")
+                    if t and t["k"] == "call":
+                        c = t.get("resolved") or t.get("callee") or ""
+                        if c and c != p:
+                            called.add(c)
+            r = {c for c in called if inline.is_unknown_helper(self.fnsrc, c)}
+            self._inl_helpers = r
+        return r
+
+    def all_paths(self, crate=None, include_inlined=False):
+        skip = set() if include_inlined else self.inlined_helpers()
         for p, f in self.fnsrc.items():
+            if p in skip:
+                continue
             if crate is None or f["crate"] == crate:
                 yield p
+
+    def closures_of(self, path, depth=3):
+        """Closures belonging to `path`: those nested in it by name and those created by helper bodies inlined into it."""
+        out = [x for x in self.fnsrc if x.startswith(path + "::{closure")]
+        if depth > 0 and path in self.fnsrc:
+            for cb, cp, ops in self.view(path).closures_created():
+                if cp in self.fnsrc and cp not in out:
+                    out.append(cp)
+                    for y in self.closures_of(cp, depth - 1):
+                        if y not in out:
+                            out.append(y)
+        return out
 
     def callees(self, path):
         """[(block, callee_path, kind)] kind in call|closure; only callees with known bodies
